@@ -51,6 +51,71 @@ def inferDtype (cols : List (DType × Bool)) : Option DType :=
   | [] => none
   | c :: cs => some (cs.foldl (fun d x => promote d x.1) c.1)
 
+/-- the same with numpy's own n-ary promotion (`promoteAll`, below): what `numpy.result_type(*dtypes)` in
+`polynomial_from_attributes` computes for any number of coefficient types -/
+def inferDtypeN (promoteAll : List DType → Option DType) (cols : List (DType × Bool)) : Option DType :=
+  promoteAll (cols.map (·.1))
+
+/-! ### numpy's promotion of several types at once (`numpy.result_type(t0, t1, .., tk)`, `PyArray_PromoteDTypeSequence`)
+
+It is NOT a left fold of the pairwise table: numpy first finds the type that "knows" the others (a builtin type knows the
+builtin types with a smaller type number), promotes every other type with that main type pairwise, and reduces those
+results. `result_type(int8, uint16, complex64)` is complex64 (the fold gives complex128). -/
+
+/-- numpy's type numbers (`NPY_BOOL` .. `NPY_CDOUBLE`, `NPY_HALF` = 23) -/
+def typeNum : DType → Nat
+  | .bool => 0 | .i8 => 1 | .u8 => 2 | .i16 => 3 | .u16 => 4 | .i32 => 5 | .u32 => 6 | .i64 => 7 | .u64 => 8
+  | .f32 => 11 | .f64 => 12 | .c64 => 14 | .c128 => 15 | .f16 => 23
+
+/-- `cls.__common_dtype__(other)` of the builtin types: `none` (NotImplemented) when `other` has the larger type number -/
+def commonDT (cls other : DType) : Option DType :=
+  if typeNum other > typeNum cls then none else some (promote cls other)
+
+/-- `PyArray_CommonDType`: ask one side, then the other -/
+def common2 (a b : DType) : DType := (commonDT a b).getD ((commonDT b a).getD a)
+
+/-- one pass of `reduce_dtypes_to_most_knowledgeable` over the pairs `(low, length-1-low)`, `low < half`: swap when the
+high one knows more, clear (`none`) the high one when it cannot influence the result; returns the slots and the last
+`common_dtype` answer (`none` = NotImplemented) -/
+def reducePass (d : List (Option DType)) (length : Nat) : Nat → List (Option DType) × Option DType → List (Option DType) × Option DType
+  | 0, acc => acc
+  | low + 1, acc =>
+    let acc := reducePass d length low acc
+    let ds := acc.1
+    let high := length - 1 - low
+    match ds.getD low none, ds.getD high none with
+    | some l, some h =>
+      let res := if h = l then some l else commonDT l h
+      match res with
+      | none => ((ds.set low (some h)).set high (some l), none)
+      | some r => (if r = l then ds.set high none else ds, some r)
+    | _, _ => (ds, acc.2)
+
+/-- `reduce_dtypes_to_most_knowledgeable`: halve until two are left (fuel = the length) -/
+def reduceMost : Nat → Nat → List (Option DType) → List (Option DType) × Option DType
+  | 0, _, d => (d, none)
+  | fuel + 1, length, d =>
+    let r := reducePass d length (length / 2) (d, none)
+    if length ≤ 2 then r else reduceMost fuel (length - length / 2) r.1
+
+/-- `numpy.result_type` of a non-empty list of builtin numeric types -/
+def promoteAll : List DType → Option DType
+  | [] => none
+  | [a] => some a
+  | ds =>
+    let r := reduceMost ds.length ds.length (ds.map some)
+    match r.1.getD 0 none with
+    | none => none
+    | some main =>
+      let rest := (r.1.drop 1).filterMap id |>.filter (· ≠ main)
+      let start : Option DType := r.2
+      some ((rest.foldl (fun (acc : Option DType) x =>
+        match commonDT main x with
+        | none => acc            -- cannot happen: the main type knows every other one
+        | some p => match acc with
+          | none => some p
+          | some a => some (common2 a p)) start).getD main)
+
 /-- the shipped order: inferred *after* `remove_redundant_coefficients`, i.e. from the surviving coefficients only
 (all of them when `retain_coefficients` is on; the first one when nothing survives) -/
 def inferDtypeOld (rc : Bool) (cols : List (DType × Bool)) : Option DType :=
